@@ -153,3 +153,56 @@ package utils
 
 //@ func (*bytes.Buffer).String
 //@ inline
+
+// ---- ghost file model for *os.File (the WAL file read by the replay path) ----
+// One file: content fileContent[0..fileSize), read/write position filePos. Any call may fail; reads may be short.
+
+//@ ghost var fileSize int
+//@ ghost var filePos int
+//@ ghost var fileContent bytes
+
+//@ func (*os.File).Read
+//@ trusted "ghost file model: returns at most the remaining bytes of the one modelled file; short reads and errors allowed; 0 bytes on a non-empty buffer only with an error"
+//@ modifies mem:uint8 ghost:filePos
+//@ ensures #n: 0 <= n && n <= len(b) && n <= max(old(fileSize) - old(filePos), 0)
+//@ ensures #pos: filePos == old(filePos) + n
+//@ ensures #zero: (n == 0 && len(b) > 0) ==> err != nil
+//@ ensures #eof: err == io.EOF ==> n == 0
+//@ ensures #data: forallint(a, pattern(mem(b)[a]), (base(b) <= a && a < base(b)+n) ==> mem(b)[a] == fileContent[old(filePos) + a - base(b)])
+//@ ensures #frame: forallint(a, pattern(mem(b)[a]), (a < base(b) || a >= base(b)+n) ==> mem(b)[a] == old(mem(b))[a])
+
+//@ func (*os.File).Seek
+//@ trusted "ghost file model"
+//@ modifies ghost:filePos
+//@ ensures #ok: err == nil ==> (ret == filePos && filePos >= 0 && (whence == 0 ==> filePos == offset) && (whence == 1 ==> filePos == old(filePos) + offset) && (whence == 2 ==> filePos == fileSize + offset))
+//@ ensures #fail: err != nil ==> filePos == old(filePos)
+
+//@ func (*os.File).Name
+//@ trusted "stdlib"
+//@ pure
+
+//@ func (*os.File).Stat
+//@ trusted "stdlib; file size through FileInfo.Size"
+//@ pure
+
+//@ func (io/fs.FileInfo).Size
+//@ trusted "ghost file model: size of the one modelled file"
+//@ pure
+//@ ensures result == fileSize && result >= 0
+
+//@ func errors.Is
+//@ trusted "stdlib: true when err itself is the target (chains not modelled: weaker facts only)"
+//@ pure
+//@ ensures #self: (err != nil && err == target) ==> result
+//@ ensures #nil: err == nil ==> !result
+
+//@ func errors.As
+//@ trusted "stdlib: false for a nil error (chains not modelled)"
+//@ pure
+//@ ensures #nil: err == nil ==> !result
+
+//@ import goio io
+//@ globalfact #eofNonNil: goio.EOF != nil
+// The modelled file is smaller than 100 GB (keeps 1000*size, the replay sanity bound, inside int64 and inside the
+// slice-capacity assumption).
+//@ globalfact #fileSize: 0 <= fileSize && fileSize <= 100000000000
